@@ -1006,10 +1006,18 @@ def _check_repoint(ctx, rid, f):
         raise AnalysisError(f"{rid}: {f.qual}: flattening loop over `nodes` not found (unrecognised form)")
 
 
+
+def r_perm_identity(ctx, rid):
+    """Index-dropping shortcuts must be guarded by an exact identity test of the index list (shared lint, see _identity_lint)."""
+    from ._identity_lint import permutation_test_as_identity
+    permutation_test_as_identity(ctx, rid)
+
+
 RULES = [
     ("C09-R1", r1_ring_protocol, 11),      # 3 siblings x (order, roll, write, read) + slot agreement + Fortran hook = 14 today
     ("C09-R2", r2_capacity, 2),            # 3 today; a sibling whose list R1 rejects is skipped here
     ("C09-R3", r3_rounding, 5),
     ("C09-R4", r4_default_delay_matches_write_slot, 2),
     ("C09-R5", r5_slot_order, 6),
+    ("C09-R6", r_perm_identity, 1),
 ]
